@@ -139,7 +139,7 @@ type EnvOpt struct {
 }
 
 var envKindAll = []string{"deposit", "deposit", "deposit", "reescrow", "reescrow", "ftf_pause", "ftf_unpause", "blacklist", "unblacklist", "burn_limit",
-	"cctp_pause_burn", "cctp_unpause_burn", "cctp_pause_msgs", "cctp_unpause_msgs", "hyp_unenroll", "hyp_enroll", "next_block", "next_block", "send_disable", "send_enable", "upgrade"}
+	"cctp_pause_burn", "cctp_unpause_burn", "cctp_pause_msgs", "cctp_unpause_msgs", "hyp_unenroll", "hyp_enroll", "next_block", "next_block", "send_disable", "send_enable", "upgrade", "exec_mode", "exec_mode", "mint_to_orbiter"}
 
 func GenEnv(t *rapid.T, opt EnvOpt) Env {
 	kinds := opt.Kinds
@@ -173,6 +173,11 @@ func GenEnv(t *rapid.T, opt EnvOpt) Env {
 		if chance(t, "env/target/orbiter", 15) {
 			e.Target = world.OrbiterAddr.String()
 		}
+	case "mint_to_orbiter":
+		e.Denom = world.SwapDenom
+		e.Amount = pick(t, "env/mint", []string{"1000", "1000000"})
+	case "exec_mode":
+		e.Amount = pick(t, "env/execmode", []string{"2", "2", "7", "7", "0", "1", "3", "4"})
 	case "upgrade":
 		e.Amount = "1"
 	case "send_disable", "send_enable":
